@@ -232,11 +232,13 @@ class GriffeLoader:
             self.expand_wildcards(wildcards_module, external=external)
 
         load_failures: set[str] = set()
-        while unresolved and unresolved != prev_unresolved and iteration < max_iterations:  # type: ignore[operator]
+        progress = False
+        while unresolved and (progress or unresolved != prev_unresolved) and iteration < max_iterations:  # type: ignore[operator]
             prev_unresolved = unresolved - {"0"}
             unresolved = set()
             resolved: set[str] = set()
             iteration += 1
+            loaded_modules = len(collection)
             for module_name in list(collection.keys()):
                 module = collection[module_name]
                 next_resolved, next_unresolved = self.resolve_module_aliases(
@@ -247,6 +249,9 @@ class GriffeLoader:
                 )
                 resolved |= next_resolved
                 unresolved |= next_unresolved
+            # An iteration that resolved aliases or loaded packages calls for another one,
+            # even if it ends with the same unresolved aliases as the previous iteration.
+            progress = bool(resolved) or len(collection) != loaded_modules
             logger.debug(
                 "Iteration %s finished, %s aliases resolved, still %s to go",
                 iteration,
